@@ -76,9 +76,9 @@ Proof.
     split; [apply has_change_errors; exact Herr|]. split; [intros _; exact He|].
     split; [discriminate|]. split; destruct c; reflexivity.
   - split.
-    { rewrite replay_app, replay_errors by exact Herr. cbn [replay fold_left apply_event].
+    { rewrite replay_app, (replay_errors errs) by exact Herr. cbn [replay fold_left apply_event].
       apply erase_eq_iff_raw. apply raw_bare. }
-    split; [rewrite has_change_app, has_change_errors by exact Herr; reflexivity|].
+    split; [rewrite has_change_app, (has_change_errors errs) by exact Herr; reflexivity|].
     split; [discriminate|]. split; [|split; destruct c; reflexivity].
     intros _ gs Hs. destruct Hs as [_ [_ [_ [_ [_ [Hu _]]]]]].
     assert (Hraw : raw_urns (c_urns (with_groups (with_urns c cur) gs)) = raw_urns cur) by (destruct c; reflexivity).
@@ -248,22 +248,20 @@ Proof.
       split; [rewrite replay_errors by exact Herr; reflexivity|].
       split; [apply has_change_errors; exact Herr|]. split; [reflexivity|]. split; [discriminate|].
       split; [symmetry; exact Hc|]. split; [exact Hnd | auto].
-    + inversion H; subst c1 evs b. cbn [c_groups with_groups].
+    + inversion H; subst c1 evs b.
       split.
-      { rewrite replay_app, replay_errors by exact Herr. cbn [replay fold_left apply_event remove_group]. reflexivity. }
-      split; [rewrite has_change_app, has_change_errors by exact Herr; reflexivity|].
+      { rewrite replay_app, (replay_errors errs) by exact Herr. cbn [replay fold_left apply_event remove_group]. reflexivity. }
+      split; [rewrite has_change_app, (has_change_errors errs) by exact Herr; reflexivity|].
       split; [discriminate|]. split.
       { intros _. split; [destruct c; exact Hact|]. exists d0.
         destruct (H3 d0 (or_introl eq_refl)) as [_ [Hq Hn]].
         split; [intros [_ Hu]; congruence|].
-        assert (Hcg : c_groups (with_groups c (fold_left add_group (d0 :: d) (c_groups c))) = fold_left add_group (d0 :: d) (c_groups c))
-          by (destruct c; reflexivity).
-        rewrite Hcg, H5. intro Hiff. apply Hn. apply Hiff. right. left. reflexivity. }
-      assert (Hcg : c_groups (with_groups c (fold_left add_group (d0 :: d) (c_groups c))) = fold_left add_group (d0 :: d) (c_groups c))
-        by (destruct c; reflexivity).
+        assert (Hcg : forall x, c_groups (with_groups c x) = x) by (intro x; destruct c; reflexivity).
+        intro Hiff. apply Hn. apply Hiff. rewrite Hcg. apply (proj2 (H5 d0)). right. left. reflexivity. }
+      assert (Hcg : forall x, c_groups (with_groups c x) = x) by (intro x; destruct c; reflexivity).
       rewrite Hcg. split; [destruct c; reflexivity|]. split.
-      { apply fold_add_nodup. exact Hnd. }
-      intros Hgs Hinc g Hg. apply H5 in Hg. destruct Hg as [Hg|Hg]; [apply Hinc; exact Hg|].
+      { apply (fold_add_nodup (d0 :: d)). exact Hnd. }
+      intros Hgs Hinc g Hg. apply (proj1 (H5 g)) in Hg. destruct Hg as [Hg|Hg]; [apply Hinc; exact Hg|].
       apply Hgs. destruct (H3 g Hg) as [Ht _]. exact Ht.
   - destruct (groups_remove_loop_spec gs (c_groups c) [] [] Hnd) as [d [errs [HL [Herr [N1 [H3 [H4 H5]]]]]]].
     rewrite HL in H. cbn [app] in H. destruct d as [|d0 d].
@@ -273,18 +271,133 @@ Proof.
       split; [apply has_change_errors; exact Herr|]. split; [reflexivity|]. split; [discriminate|].
       split; [symmetry; exact Hc|]. split; [exact Hnd | auto].
     + inversion H; subst c1 evs b.
-      assert (Hcg : c_groups (with_groups c (fold_left remove_group (d0 :: d) (c_groups c))) = fold_left remove_group (d0 :: d) (c_groups c))
-        by (destruct c; reflexivity).
+      assert (Hcg : forall x, c_groups (with_groups c x) = x) by (intro x; destruct c; reflexivity).
       rewrite Hcg. split.
-      { rewrite replay_app, replay_errors by exact Herr. cbn [replay fold_left apply_event add_group]. reflexivity. }
-      split; [rewrite has_change_app, has_change_errors by exact Herr; reflexivity|].
+      { rewrite replay_app, (replay_errors errs) by exact Herr. cbn [replay fold_left apply_event add_group]. reflexivity. }
+      split; [rewrite has_change_app, (has_change_errors errs) by exact Herr; reflexivity|].
       split; [discriminate|]. split.
       { intros _. split; [destruct c; exact Hact|]. exists d0.
         destruct (H3 d0 (or_introl eq_refl)) as [_ [Hq Hin]].
         split; [intros [_ Hu]; congruence|].
-        rewrite H5. intro Hiff. apply Hiff in Hin. destruct Hin as [_ Hn]. apply Hn. left. reflexivity. }
+        intro Hiff. apply Hiff in Hin. apply (proj1 (H5 d0)) in Hin. destruct Hin as [_ Hn]. apply Hn. left. reflexivity. }
       split; [destruct c; reflexivity|]. split; [exact N1|].
-      intros _ Hinc g Hg. apply H5 in Hg. apply Hinc. tauto.
+      intros _ Hinc g Hg. apply (proj1 (H5 g)) in Hg. apply Hinc. tauto.
 Qed.
 
 End Inner.
+
+(* ---- Part 2: modifiers.Apply ------------------------------------------------------------------------------ *)
+Section Apply.
+Variable E : menv.
+
+Lemma with_groups_same : forall c, with_groups c (c_groups c) = c.
+Proof. destruct c; reflexivity. Qed.
+
+(* one inner application, any modifier *)
+Lemma apply_inner_spec : forall fresh m c c1 evs b,
+  wf_contact E c -> mod_wf E m ->
+  apply_inner E fresh m c = (c1, evs, b) ->
+  erase (replay evs c) = erase c1
+  /\ has_change_event evs = b
+  /\ (b = false -> erase c1 = erase c)
+  /\ (max_field_chars E <> 0 -> b = true -> lasting_change E c c1)
+  /\ wf_contact E c1.
+Proof.
+  intros fresh m c c1 evs b [Hnd Hincl] Hm H. destruct m; cbn [apply_inner] in H.
+  - (* name *) unfold apply_name in H.
+    destruct (text_eqb (c_name c) (truncate (max_field_chars E) n)) eqn:Heq; cbn [negb] in H; inversion H; subst.
+    + repeat split; try reflexivity; try assumption; discriminate.
+    + split; [reflexivity|]. split; [reflexivity|]. split; [discriminate|]. split; [|split; destruct c; assumption].
+      intros _ _. left. intros gs [Hs _]. destruct c; cbn in *. rewrite Hs, text_eqb_refl in Heq. discriminate.
+  - (* language *) unfold apply_language in H.
+    destruct (N.eqb (c_lang c) l) eqn:Heq; cbn [negb] in H; inversion H; subst.
+    + repeat split; try reflexivity; try assumption; discriminate.
+    + split; [reflexivity|]. split; [reflexivity|]. split; [discriminate|]. split; [|split; destruct c; assumption].
+      intros _ _. left. intros gs [_ [Hs _]]. destruct c; cbn in *. rewrite Hs, N.eqb_refl in Heq. discriminate.
+  - (* status *) unfold apply_status in H.
+    destruct (status_eqb (c_status c) s) eqn:Heq; cbn [negb] in H; inversion H; subst.
+    + repeat split; try reflexivity; try assumption; discriminate.
+    + split; [reflexivity|]. split; [reflexivity|]. split; [discriminate|]. split; [|split; destruct c; assumption].
+      intros _ _. left. intros gs [_ [_ [Hs _]]]. destruct c; cbn in *.
+      rewrite Hs, (proj2 (status_eqb_eq s s) eq_refl) in Heq. discriminate.
+  - (* timezone *) unfold apply_timezone in H.
+    destruct (optN_eqb (c_tz c) tz) eqn:Heq; cbn [negb] in H; inversion H; subst.
+    + repeat split; try reflexivity; try assumption; discriminate.
+    + split; [reflexivity|]. split; [reflexivity|]. split; [discriminate|]. split; [|split; destruct c; assumption].
+      intros _ _. left. intros gs [_ [_ [_ [Hs _]]]]. destruct c; cbn in *.
+      rewrite Hs, (proj2 (optN_eqb_eq tz tz) eq_refl) in Heq. discriminate.
+  - (* field *)
+    assert (Hweak : erase (replay evs c) = erase c1 /\ has_change_event evs = b /\ (b = false -> erase c1 = erase c)
+                    /\ c_groups c1 = c_groups c).
+    { unfold apply_field in H.
+      destruct (ofvalue_eqb (option_map (truncate_value E) (parse_value E (c_fields c) f raw)) (fget f (c_fields c)));
+        cbn [negb] in H; inversion H; subst; repeat split; try reflexivity; try discriminate. }
+    destruct Hweak as [W1 [W2 [W3 W4]]]. split; [exact W1|]. split; [exact W2|]. split; [exact W3|].
+    split; [|unfold wf_contact; rewrite W4; split; assumption].
+    intros Hmax Hb. left. destruct (apply_field_inner E f raw c c1 evs b Hmax H) as [_ [_ [_ [H4 _]]]]. apply H4. exact Hb.
+  - (* groups *)
+    destruct (apply_groups_inner E gs md c c1 evs b Hnd H) as [H1 [H2 [H3 [H4 [H5 [H6 H7]]]]]].
+    split; [exact H1|]. split; [exact H2|]. split; [exact H3|]. split; [intros _ Hb; right; apply H4; exact Hb|].
+    split; [exact H6 | apply H7; assumption].
+  - (* urns *)
+    destruct (apply_urns_inner E us md c c1 evs b H) as [H1 [H2 [H3 [H4 [H5 H6]]]]].
+    split; [exact H1|]. split; [exact H2|]. split; [exact H3|]. split; [intros _ Hb; left; apply H4; exact Hb|].
+    unfold wf_contact. rewrite H5. split; assumption.
+  - (* channel *)
+    destruct (apply_channel_inner E ch c c1 evs b H) as [H1 [H2 [H3 [H4 [H5 H6]]]]].
+    split; [exact H1|]. split; [exact H2|]. split; [exact H3|]. split; [intros _ Hb; left; apply H4; exact Hb|].
+    unfold wf_contact. rewrite H5. split; assumption.
+  - (* ticket *) unfold apply_ticket in H. destruct (c_ticket c) eqn:Ht; inversion H; subst.
+    + repeat split; try reflexivity; try assumption; discriminate.
+    + split; [reflexivity|]. split; [reflexivity|]. split; [discriminate|]. split; [|split; destruct c; assumption].
+      intros _ _. left. intros gs [_ [_ [_ [_ [_ [_ [_ [_ Hs]]]]]]]]. destruct c; cbn in *. congruence.
+Qed.
+
+Lemma replay_group_events : forall evs c,
+  (evs = [] \/ exists a r, evs = [EGroupsChanged a r]) ->
+  replay evs c = with_groups c (group_events_sum evs (c_groups c)).
+Proof.
+  intros evs c [He|[a [r He]]]; subst; cbn; [symmetry; apply with_groups_same | reflexivity].
+Qed.
+
+(* C03, first clause, for a directly applied modifier *)
+Theorem replay_modifier : forall fresh m c c' evs b,
+  wf_contact E c -> mod_wf E m ->
+  apply E fresh m c = (c', evs, b) ->
+  erase (replay evs c) = erase c'.
+Proof.
+  intros fresh m c c' evs b Hwf Hm H. unfold apply in H.
+  destruct (apply_inner E fresh m c) as [[c1 evs1] b1] eqn:HI.
+  destruct (apply_inner_spec fresh m c c1 evs1 b1 Hwf Hm HI) as [H1 [H2 [H3 [H4 Hwf1]]]].
+  destruct b1.
+  - destruct (reevaluate_groups E c1) as [c2 evs2] eqn:HR. inversion H; subst c' evs b.
+    destruct (reevaluate_groups_spec E c1 c2 evs2 Hwf1 HR) as [G1 [G2 [G3 [G4 [G5 [G6 G7]]]]]].
+    rewrite replay_app. rewrite (replay_erase evs2 (replay evs1 c) c1 H1).
+    rewrite replay_group_events.
+    + rewrite G5, <- G1. reflexivity.
+    + destruct G7 as [[G7 _]|G7]; [left; exact G7 | right; exact G7].
+  - inversion H; subst. exact H1.
+Qed.
+
+(* C03, second clause: modified <-> a change event was emitted <-> the contact visibly changed *)
+Theorem modified_iff_changed : forall fresh m c c' evs b,
+  wf_contact E c -> mod_wf E m -> max_field_chars E <> 0 ->
+  apply E fresh m c = (c', evs, b) ->
+  (b = true <-> has_change_event evs = true) /\ (b = true <-> ~ same_contact c c').
+Proof.
+  intros fresh m c c' evs b Hwf Hm Hmax H. unfold apply in H.
+  destruct (apply_inner E fresh m c) as [[c1 evs1] b1] eqn:HI.
+  destruct (apply_inner_spec fresh m c c1 evs1 b1 Hwf Hm HI) as [H1 [H2 [H3 [H4 Hwf1]]]].
+  destruct b1.
+  - destruct (reevaluate_groups E c1) as [c2 evs2] eqn:HR. inversion H; subst c' evs b.
+    destruct (reevaluate_groups_spec E c1 c2 evs2 Hwf1 HR) as [G1 [G2 [G3 [G4 [G5 [G6 G7]]]]]].
+    split; [rewrite has_change_app, H2; cbn; tauto|].
+    split; [intros _|reflexivity].
+    destruct (H4 Hmax eq_refl) as [L|[Hact [g [Hq Hd]]]].
+    + rewrite G1. apply L.
+    + intros [_ [_ [_ [_ [_ [_ [Hg _]]]]]]]. apply Hd. rewrite Hg. apply G6; assumption.
+  - inversion H; subst c' evs b. split; [rewrite H2; tauto|].
+    split; [discriminate|]. intro Hn. exfalso. apply Hn. apply erase_same. symmetry. apply H3. reflexivity.
+Qed.
+
+End Apply.
